@@ -195,7 +195,7 @@ def truncation_families(chk):
     chk.functions.setdefault(fkey, {"sha": "-", "paths": 0, "lines": 0, "bounded_only": True})
     fails = []
     n_eval = 0
-    k = 5 if chk.tier == "quick" else 15
+    k = 5 if chk.bounded_tier == "quick" else 15
     rng = np.random.default_rng(chk.seed)
     for fam_name, ((alo, ahi), (clo, chi), b) in DOMAINS.items():
         fam = getattr(F, fam_name)
